@@ -95,6 +95,11 @@ Theorem C07_rejects_duplicate : forall (T : table) fuel (a : list rpair) key v1 
   classify maxvec T key = POk (i, kd) -> nth_error T i = Some r -> r_kind r <> KOptLast ->
   exists e, dec_entries maxvec T fuel (enc_pairs maxvec a ++ enc_pair maxvec (key, v1) ++ enc_pairs maxvec b ++ enc_pair maxvec (key, v2) ++ tail) m = PErr e.
 Proof. intros T. exact (dup_rejected maxvec Hmax T). Qed.
+Theorem C07_rejects_duplicate_any : forall (T : table) fuel (a : list rpair) key v1 (b : list rpair) v2 tail m,
+  Forall (fits maxvec) a -> fits maxvec (key, v1) -> Forall (fits maxvec) b -> fits maxvec (key, v2) ->
+  (forall i kd r, classify maxvec T key = POk (i, kd) -> nth_error T i = Some r -> r_kind r <> KOptLast) ->
+  exists e, dec_entries maxvec T fuel (enc_pairs maxvec a ++ enc_pair maxvec (key, v1) ++ enc_pairs maxvec b ++ enc_pair maxvec (key, v2) ++ tail) m = PErr e.
+Proof. intros T. exact (dup_rejected_any maxvec Hmax T). Qed.
 (* missing mandatory fields: an accepted map has every mandatory field of its table (global: tx version, counts, version = 2;
    input: previous txid and index; output: script and the four completeness rules, which are `posto`) *)
 Theorem C07_rejects_missing_global : forall bs m rest, dec_map maxvec TG POSTG bs = POk (m, rest) ->
